@@ -9,6 +9,7 @@ require (
 	github.com/cockroachdb/pebble v1.1.5
 	github.com/cockroachdb/pebble/v2 v2.1.6
 	github.com/coder/websocket v1.8.15
+	github.com/ethereum/go-ethereum v1.17.5
 	github.com/libp2p/go-libp2p v0.48.0
 	github.com/starknet-io/starknet-p2p-specs v0.0.0-00010101000000-000000000000
 	go.uber.org/zap v1.28.0
@@ -40,7 +41,6 @@ require (
 	github.com/deckarep/golang-set/v2 v2.8.0 // indirect
 	github.com/decred/dcrd/dcrec/secp256k1/v4 v4.4.1 // indirect
 	github.com/dunglas/httpsfv v1.1.0 // indirect
-	github.com/ethereum/go-ethereum v1.17.5 // indirect
 	github.com/filecoin-project/go-clock v0.1.0 // indirect
 	github.com/fjl/jsonw v0.1.0 // indirect
 	github.com/flynn/noise v1.1.0 // indirect
